@@ -1,0 +1,20 @@
+//go:build verif
+
+package debug
+
+import "github.com/goghcrow/yae/val"
+
+// Entry is a read-only view of one recorded intermediate value (build tag verif)
+type Entry struct {
+	V   *val.Val
+	Col int
+}
+
+// Entries returns the recorded values in recording order
+func (r *Record) Entries() []Entry {
+	xs := make([]Entry, len(r.vs))
+	for i, v := range r.vs {
+		xs[i] = Entry{v.v, v.col}
+	}
+	return xs
+}
